@@ -118,7 +118,7 @@ def run(tier, replay=None):
         executions=2 * len(cases), states=st["states"] + g.distinct + vres["states"], transitions=st["transitions"] + g.generated + vres["transitions"],
         traces_validated_against_impl=vres["recorded"], **vcov,
         evaluations=len(cases), distinct_nontrivial=len(cases),
-        rule=f"GenCtl.tla BFS: every path of <= {depth} constructs over 27 construct kinds (incl. a condition whose right operand is guarded by the left one, loops whose body ends in an unconditional break / return behind the nested part) (incl. loops whose start / end / step variables are reassigned in the body) x 7 terminators x padded/bare; plus GenNames.tla: 56 identifiers that begin / end with a keyword, use `_` / digits or look like a compiler-generated label x 10 roles (variable, typed, parameter, loop counter, function name, list, captured, optional, class name, method name), exhaustive (exhaustive up to depth {full_depth}, plus {len(cases) - len(keep)} deeper programs: quick = seeded sample of the depth-3 level, thorough = seeded -simulate walks down to depth 5); every program is distinct by construction; each run through `run` and `compile`+`execute`",
+        rule=f"GenCtl.tla BFS: every path of <= {depth} constructs over 27 construct kinds (incl. a condition whose right operand is guarded by the left one, loops whose body ends in an unconditional break / return behind the nested part) (incl. loops whose start / end / step variables are reassigned in the body) x 8 terminators (incl. a bare `return` outside of any function, inside a block) x padded/bare; plus GenNames.tla: 56 identifiers that begin / end with a keyword, use `_` / digits or look like a compiler-generated label x 10 roles (variable, typed, parameter, loop counter, function name, list, captured, optional, class name, method name), exhaustive (exhaustive up to depth {full_depth}, plus {len(cases) - len(keep)} deeper programs: quick = seeded sample of the depth-3 level, thorough = seeded -simulate walks down to depth 5); every program is distinct by construction; each run through `run` and `compile`+`execute`",
         exhaustive=(len(cases) == total + len(names)), exhaustive_to_depth=full_depth,
         samples=[dict(id=c["id"], src=c["src"], observed=c["obs"][0]["out"]) for c in cases[:: max(1, len(cases) // 3)][:3]],
     )
